@@ -42,7 +42,11 @@ def mesh_pairs_sites_and_edges(ctx, rule, consequence):
                     Ex = expand(f.node, E)
                 except Exception:
                     Ex = E
-                st, et = norm(S), norm(Ex)
+                try:
+                    st = norm(expand(f.node, S))
+                except Exception:
+                    st = norm(S)
+                et = norm(Ex)
                 # alternatives of a conditional definition (`edge_mesh = None` ... `if create_submesh: edge_mesh = EdgeMesh.from_mesh(...)`)
                 from ..dataflow import assignments
                 alts = [Ex]
